@@ -663,6 +663,18 @@ func (r *hsRun) doOp(op hsOp) {
 			return
 		}
 		ws, wc := r.exactStreamWindow(st), r.exactConnWindow()
+		// A WINDOW_UPDATE the server has decided on but not yet written (it queues
+		// behind a flow-control-blocked DATA frame of the same stream) is credit
+		// "in the pipeline": what is advertised on the wire and what the server
+		// enforces then differ, and the property's clause about the advertised
+		// window does not decide such an instant. Only probe when both agree.
+		if r.sc != nil {
+			sst := r.sc.streams[st.id]
+			if sst == nil || int64(sst.inflow.avail) != ws || int64(r.sc.inflow.avail) != wc {
+				vs.G.Inc("skip.overdata_update_in_pipeline")
+				return
+			}
+		}
 		w := ws
 		if op.connLvl {
 			w = wc
@@ -1080,7 +1092,13 @@ func (r *hsRun) check() *vs.Violation {
 		if st.overSent && st.overEndOff <= dAB && st.overEndOff > 0 {
 			ok := (st.srvRst && st.srvRstCode == ErrCodeFlowControl) || (r.goAway && r.goAwayCode == ErrCodeFlowControl)
 			if !ok && !r.srvClosed {
-				return vs.Violf("C11", "over_window_not_rejected", "srv:over_window_accepted", "stream %d: DATA exceeding the advertised window was delivered but no FLOW_CONTROL_ERROR was sent (rst=%v code=%v goaway=%v)", st.id, st.srvRst, st.srvRstCode, r.goAway)
+				wb := "stream unknown to the server"
+				if r.sc != nil {
+					if sst := r.sc.streams[st.id]; sst != nil {
+						wb = fmt.Sprintf("server stream state=%v inflow.avail=%d unsent=%d resetQueued=%v bodyBytes=%d decl=%d; conn inflow avail=%d unsent=%d", sst.state, sst.inflow.avail, sst.inflow.unsent, sst.resetQueued, sst.bodyBytes, sst.declBodyBytes, r.sc.inflow.avail, r.sc.inflow.unsent)
+					}
+				}
+				return vs.Violf("C11", "over_window_not_rejected", "srv:over_window_accepted", "stream %d: DATA exceeding the advertised window was delivered but no FLOW_CONTROL_ERROR was sent (rst=%v code=%v goaway=%v; client sent flow=%d body=%d; server advertised iw=%d stream WU=%d conn WU=%d; %s)", st.id, st.srvRst, st.srvRstCode, r.goAway, st.sentFlow, st.sentBody, r.srvIW, st.srvWU, r.sConnWU, wb)
 			}
 			st.overEndOff = -1
 		}
@@ -1377,8 +1395,14 @@ func (r *hsRun) final(sim *vs.Sim, harness *string) *vs.Violation {
 			}
 		}
 	}
-	// C10: conservation of connection-level receive credit.
-	if r.sc != nil {
+	// C10: conservation of connection-level receive credit. (Not evaluated in runs
+	// that deliberately exceeded a window: a frame the server rejected with
+	// FLOW_CONTROL_ERROR was never taken from its window.)
+	anyOver := false
+	for _, st := range r.streams {
+		anyOver = anyOver || st.overSent
+	}
+	if r.sc != nil && !anyOver {
 		configured := int64(r.p.upConn)
 		if configured < 65535 {
 			configured = 1 << 20 // package default when unset or below the protocol default
